@@ -40,6 +40,7 @@ ASSUMPTIONS = [
 f = st.floats
 
 case_strategy = st.fixed_dictionaries({
+    "rep": skyimg.rep_strategy,      # how the image is stored (CD matrix, degenerate axes, BSCALE/BZERO)
     "proj": st.sampled_from(refs.ZWCS.PROJ),
     "crval": st.tuples(st.one_of(f(0, 360, exclude_max=True), st.sampled_from([0.002, 359.998])), f(-80, 80)),
     "scale": f(3, 30),
@@ -222,7 +223,7 @@ def check_case(c):
     d = workdir("c05_")
     try:
         path = os.path.join(d, "im.fits")
-        skyimg.write_fits(path, img, B["hdr"])
+        skyimg.write_fits(path, img, B["hdr"], rep=c.get("rep"))
         out = run_prior(path, shuffled, c, rms)
         if c["ratio"] is not None and not c["psf_cols"]:
             # documented: sources that cannot be rescaled are not returned
